@@ -50,6 +50,9 @@ package client
 //@   ==> op.Id in dom(c.qs.pendq.Ops)
 //@ ensures[unknown-id] !(op.Id in old(dom(c.qs.pendq.Ops))) ==> dom(c.qs.pendq.Ops) == old(dom(c.qs.pendq.Ops))
 //@   && (result1 != nil || op.GetStatus() == spb.AFTResult_FIB_PROGRAMMED || op.GetStatus() == spb.AFTResult_RIB_PROGRAMMED)
+//@ ensures[known-id-ok] !(TreatRIBACKAsCompletedInFIBACKMode && !fibMode(c)) && op.Id in old(dom(c.qs.pendq.Ops)) ==> result1 == nil && result0 != nil
+//@ ensures[unknown-id-verdict] !(TreatRIBACKAsCompletedInFIBACKMode && !fibMode(c)) && !(op.Id in old(dom(c.qs.pendq.Ops)))
+//@   ==> (result1 == nil <==> ((op.GetStatus() == spb.AFTResult_FIB_PROGRAMMED && TreatRIBACKAsCompletedInFIBACKMode) || (op.GetStatus() == spb.AFTResult_RIB_PROGRAMMED && fibMode(c))))
 //@ ensures[others-untouched] forall k: uint64 :: k != op.Id ==> ((k in dom(c.qs.pendq.Ops)) <==> (k in old(dom(c.qs.pendq.Ops)))) && c.qs.pendq.Ops[k] == old(c.qs.pendq.Ops[k])
 //@ ensures[result] result1 == nil && result0 != nil ==> fresh(result0) && result0.OperationID == op.GetId() && result0.ProgrammingResult == op.GetStatus()
 //@ ensures[details] result1 == nil && result0 != nil && op.Id in old(dom(c.qs.pendq.Ops)) ==> result0.Details != nil
@@ -132,10 +135,24 @@ package client
 //@ ensures[never-lost] forall k in old(dom(c.qs.pendq.Ops)) :: k in dom(c.qs.pendq.Ops) || (exists j in old(len(c.qs.resultq))..len(c.qs.resultq) :: c.qs.resultq[j].OperationID == k)
 //@ ensures[exclusive] m != nil && ((len(m.Result) != 0 && m.ElectionId != nil) || (len(m.Result) != 0 && m.SessionParamsResult != nil) || (m.ElectionId != nil && m.SessionParamsResult != nil))
 //@   ==> result0 != nil && len(c.qs.resultq) == old(len(c.qs.resultq)) && dom(c.qs.pendq.Ops) == old(dom(c.qs.pendq.Ops))
+// a response that carries only the election (session-parameters) answer is accepted and recorded as exactly one new result
+//@ ensures[election-answer-recorded] m != nil && m.ElectionId != nil && len(m.Result) == 0 && m.SessionParamsResult == nil
+//@   ==> result0 == nil && len(c.qs.resultq) == old(len(c.qs.resultq)) + 1 && c.qs.resultq[old(len(c.qs.resultq))].CurrentServerElectionID == m.ElectionId
+//@ ensures[session-answer-recorded] m != nil && m.SessionParamsResult != nil && len(m.Result) == 0 && m.ElectionId == nil
+//@   ==> result0 == nil && len(c.qs.resultq) == old(len(c.qs.resultq)) + 1 && c.qs.resultq[old(len(c.qs.resultq))].SessionParameters == m.SessionParamsResult
+//@ ensures[single-known-accepted] m != nil && len(m.Result) == 1 && m.ElectionId == nil && m.SessionParamsResult == nil && m.Result[0].Id in old(dom(c.qs.pendq.Ops))
+//@   && !(TreatRIBACKAsCompletedInFIBACKMode && !fibMode(c)) ==> result0 == nil && len(c.qs.resultq) == old(len(c.qs.resultq)) + 1 && c.qs.resultq[old(len(c.qs.resultq))].OperationID == m.Result[0].Id
+//@ ensures[empty-accepted] m != nil && m.SessionParamsResult == nil && len(m.Result) == 0 && m.ElectionId == nil ==> result0 == nil && len(c.qs.resultq) == old(len(c.qs.resultq))
 //@ ensures[wf] qsWF(c)
 //@ loop 1 invariant loopi <= 3 && pop == ite(loopi >= 1 && resPop, 1, 0) + ite(loopi >= 2 && elecPop, 1, 0) + ite(loopi >= 3 && sessPop, 1, 0)
 //@ loop 2 at "range m.Result" invariant qsWF(c) && resultqWF(c) && held(c.qs.resultMu) == 2 && held(c.qs.pendMu) == 0
 //@ loop 2 invariant len(c.qs.resultq) >= old(len(c.qs.resultq)) && (forall i in 0..old(len(c.qs.resultq)) :: c.qs.resultq[i] == old(c.qs.resultq[i]))
+//@ loop 2 invariant[lemma-at-most-one-per-result] len(c.qs.resultq) <= old(len(c.qs.resultq)) + ite(m.ElectionId != nil, 1, 0) + ite(m.SessionParamsResult != nil, 1, 0) + loopi
+//@    && len(c.qs.resultq) >= old(len(c.qs.resultq)) + ite(m.ElectionId != nil, 1, 0) + ite(m.SessionParamsResult != nil, 1, 0)
+//@ loop 2 invariant[lemma-answers-first] (m.ElectionId != nil ==> c.qs.resultq[old(len(c.qs.resultq))].CurrentServerElectionID == m.ElectionId)
+//@    && (m.ElectionId == nil && m.SessionParamsResult != nil ==> c.qs.resultq[old(len(c.qs.resultq))].SessionParameters == m.SessionParamsResult)
+//@ loop 2 invariant[lemma-first-known-recorded] loopi >= 1 && m.ElectionId == nil && m.SessionParamsResult == nil && m.Result[0].Id in old(dom(c.qs.pendq.Ops)) && !(TreatRIBACKAsCompletedInFIBACKMode && !fibMode(c))
+//@    ==> len(c.qs.resultq) >= old(len(c.qs.resultq)) + 1 && c.qs.resultq[old(len(c.qs.resultq))].OperationID == m.Result[0].Id
 //@ loop 2 invariant[never-lost] forall k in old(dom(c.qs.pendq.Ops)) :: k in dom(c.qs.pendq.Ops) || (exists j in old(len(c.qs.resultq))..len(c.qs.resultq) :: c.qs.resultq[j].OperationID == k)
 //@ assigns c.qs.resultq, contents(c.qs.pendq.Ops), c.qs.pendq.Election, c.qs.pendq.SessionParams
 //@ props C13 C11:lock
